@@ -405,6 +405,19 @@ theorem hpoly_mul_spec (a b : HPoly R) :
     simp [HPoly.eqv, h.1, h.2]
   · simp [h, HPoly.eqv]
 
+/-- `==` on homogeneous polynomials is equality of the denoted polynomials (all zero values are equal) -/
+theorem hpoly_eqv_iff (a b : HPoly R) : a.eqv b = true ↔ ∀ n, hval a n = hval b n := hpoly_eqv_iff_val a b
+
+/-- `+`: when it does not panic, the result denotes the sum; it panics exactly for two non-zero summands of
+different degrees -/
+theorem hpoly_add_spec {a b c : HPoly R} (h : a.add b = Res.ok c) (n : Nat) :
+    hval c n = hval a n + hval b n := hpoly_add_val h n
+theorem hpoly_add_panics_iff (a b : HPoly R) :
+    a.add b = Res.panic ↔ a.coeff ≠ 0 ∧ b.coeff ≠ 0 ∧ a.deg ≠ b.deg := hpoly_add_panic_iff a b
+
+example : (HPoly.add (⟨2, 3⟩ : HPoly Int) ⟨2, -3⟩) = Res.ok ⟨2, 0⟩ := by simp [HPoly.add, HPoly.isZero]
+example : (HPoly.add (⟨2, 3⟩ : HPoly Int) ⟨1, 1⟩) = Res.panic := by simp [HPoly.add, HPoly.isZero]
+
 theorem hpoly_mul_comm (a b : HPoly R) : (a.mul b).eqv (b.mul a) = true := by
   have h1 := hpoly_mul_spec a b
   have h2 := hpoly_mul_spec b a
@@ -413,5 +426,27 @@ theorem hpoly_mul_comm (a b : HPoly R) : (a.mul b).eqv (b.mul a) = true := by
   split at h1 <;> split at h2 <;> split <;> simp_all
 
 end HP
+
+/-! ## 8. the generic theorems specialise to the instances the driver runs -/
+section Instances
+attribute [local instance] F3.commRing GInt.commRing
+
+example (a b : List (Var2 Int × Int)) (ha : WF a) (hb : WF b) : (mulAssign a b).Perm (mulAssign b a) :=
+  mul_comm_perm ha hb
+
+example (a b c : List (Var3 Nat × Rat)) (ha : WF a) (hb : WF b) (hc : WF c) :
+    (mulAssign (mulAssign a b) c).Perm (mulAssign a (mulAssign b c)) := mul_assoc_perm ha hb hc
+
+example (a b : List (Var Nat × F3)) (ha : WF a) (hb : WF b) : (mulAssign a b).Perm (mul a b) :=
+  mulAssign_perm_mul ha hb
+
+example (a b c : List (WMVar Int × GInt)) (ha : WF a) (hb : WF b) (hc : WF c) :
+    (mulAssign a (addAssign b c)).Perm (addAssign (mulAssign a b) (mulAssign a c)) := mul_add_perm ha hb hc
+
+/-- the model's `*` on the concrete monomial and coefficient types is what the instances above use -/
+example (a b : Var2 Int) : a * b = ⟨a.e0 + b.e0, a.e1 + b.e1⟩ := rfl
+example (a b : GInt) : a * b = ⟨a.re * b.re - a.im * b.im, a.re * b.im + a.im * b.re⟩ := rfl
+
+end Instances
 
 end Yuiv.C16.Props
